@@ -19,7 +19,7 @@ for p in "$@"; do
   # hang): a failing package gets up to two more attempts before it counts as failing with the change
   ok=1
   for attempt in 1 2 3; do
-    if go test -vet=off -count=1 -timeout 6m $p > /tmp/seedverify/exist.$$ 2>&1; then ok=0; break; fi
+    if go test -vet=off -count=1 -timeout 6m ${VS_RUN:+-run "$VS_RUN"} $p > /tmp/seedverify/exist.$$ 2>&1; then ok=0; break; fi
     grep -E "^(--- FAIL|FAIL|panic)" /tmp/seedverify/exist.$$ | head -3 | sed "s/^/  attempt $attempt: /"
   done
   [ $ok -ne 0 ] && existing=1
